@@ -41,6 +41,13 @@ func Split(p string) (dir, file string) {
 // The only possible returned error is ErrBadPattern, when pattern
 // is malformed.
 func (c *Client) Glob(pattern string) (matches []string, err error) {
+	// Check pattern is well-formed, as filepath.Glob does: without this a
+	// malformed pattern is only noticed if some directory gets as far as
+	// being matched against the malformed element.
+	if _, err := Match(pattern, ""); err != nil {
+		return nil, err
+	}
+
 	if !hasMeta(pattern) {
 		file, err := c.Lstat(pattern)
 		if err != nil {
